@@ -117,7 +117,7 @@ def gen_plan(rng, tier, run):
             "fseed": rng.randrange(1 << 30), "opts": rng.choice([["-E"], ["-E"], ["-E", "-P"], ["-E", "-x"]]),
             "nflips": 120 if tier == "quick" else 400, "registry": rng.random() < 0.3,
             # which single-PEL path of the CLI reads the damaged file
-            "cli": rng.choice(["-f", "-f", "-f", "-i", "-a", "--bmc-id", "-l", "--plid", "--src", "-n"]),
+            "cli": rng.choice(["-f", "-f", "-f", "-i", "-a", "--bmc-id", "-l", "--plid", "--src", "-n", "-j"]),
             "stdout_encoding": rng.choice(["utf-8", "utf-8", "ascii", "latin-1"]),
             # one plan in 25: a PEL with a ~64 kB NUL/blank padded built-in text or JSON section (worst case for
             # anything super-linear in the payload), few faults
@@ -297,7 +297,12 @@ def execute(plan):
                     # the damaged file is the only file of a PEL directory, stored under its BMC-style name
                     w.put("G/" + gname + ("" if plan.get("fname", "pel") == "pel" else "." + plan["fname"]), bad)
                     ps = [x for x in r["sections"] if x["kind"] == "src" and x["id"] == "PS"]
+                    if cli == "-j":
+                        # the damaged file exists twice: conversion must report each and still end with status 0 / 1
+                        w.put("G/" + gname + ".copy", bad)
+                        w.mkdir("GOUT")
                     argv = ["-p", "@/G"] + {"-i": ["-i", "%08X" % r["eid"]], "-a": ["-a"], "--bmc-id": ["--bmc-id", str(r["bmc_id"])],
+                                            "-j": ["-j", "-o", "@/GOUT"],
                                             "-l": ["-l"], "-n": ["-n"], "--plid": ["--plid", "%08X" % r["plid"]],
                                             "--src": ["--src", ps[0]["ascii"][:2] if ps else "BD"]}[cli] + plan["opts"]
                 t_cpu = time.process_time()
@@ -326,7 +331,12 @@ def execute(plan):
                     vio.append(V("traceback", "peltool %s on %s printed a traceback: %s" % (cli, fdesc, res.stderr[-500:]), f))
                 hexmode = "-x" in plan["opts"]
                 produced_doc = False
-                if res.stdout:
+                if cli == "-j":
+                    import os as _os, shutil as _shutil
+                    outs = sorted(_os.listdir(w.path("GOUT")))
+                    produced_doc = bool(outs)
+                    _shutil.rmtree(w.path("GOUT"), ignore_errors=True)
+                elif res.stdout:
                     if res.stdout.strip() == "PEL not found" and plan.get("cli") in ("-i", "--bmc-id"):
                         pass
                     elif hexmode and cli != "-n":
